@@ -1324,6 +1324,11 @@ func (s *sim) epilogue() {
 			s.opView()
 		case s.outstandingKind() == tkCommitWait && s.idle():
 			s.opFire()
+		case (s.outstandingKind() == tkPrevoteDelay || s.outstandingKind() == tkPrecommitDelay) && s.idle():
+			// An armed delay timer elapses by itself: a machine waiting on one is not stuck.
+			// (The proposal timer is left alone: a machine awaiting a proposal in the mirror's
+			// voting round is in sync.)
+			s.opFire()
 		case len(s.mm.hcDue) > 0 && s.idle():
 			// The mirror has closed a HeightCommitted channel. For a machine that the mirror
 			// left more than a height behind (its jump-ahead view was replaced by one of a
